@@ -637,7 +637,12 @@ func resolveAllProtocolChanges(newEnv, oldEnv *Environment, context *EvolutionCo
 			newProt, ok := newProts[oldProt.GetQualifiedName()]
 			if !ok {
 				// Protocol was removed
-				allProtocolChanges[oldProt.GetQualifiedName()] = &ProtocolRemoved{DefinitionPair{oldProt, dummyDef}}
+				latest := dummyDef
+				if latest == nil {
+					// the latest version defines nothing the message could be attached to
+					latest = oldProt
+				}
+				allProtocolChanges[oldProt.GetQualifiedName()] = &ProtocolRemoved{DefinitionPair{oldProt, latest}}
 				continue
 			}
 
